@@ -7,7 +7,6 @@ import (
 
 	"github.com/ipld/go-ipld-prime"
 	"github.com/ipld/go-ipld-prime/datamodel"
-	"github.com/ipld/go-ipld-prime/must"
 )
 
 // Match determines if the IPLD node satisfies the policy.
@@ -97,7 +96,7 @@ func matchStatement(cur Statement, node ipld.Node) (_ matchResult, leafMost Stat
 			if res == nil { // optional selector didn't match
 				return matchResultOptionalNoData, nil
 			}
-			return boolToRes(datamodel.DeepEqual(s.value, res))
+			return boolToRes(deepEqual(s.value, res))
 		}
 	case KindGreaterThan:
 		if s, ok := cur.(equality); ok {
@@ -272,8 +271,15 @@ func matchStatement(cur Statement, node ipld.Node) (_ matchResult, leafMost Stat
 //   - For "<=" it returns true when order is -1 or 0
 func isOrdered(expected ipld.Node, actual ipld.Node, satisfies func(order int) bool) bool {
 	if expected.Kind() == ipld.Kind_Int && actual.Kind() == ipld.Kind_Int {
-		a := must.Int(actual)
-		b := must.Int(expected)
+		// integers that don't fit in an int64 (CBOR uint64 above MaxInt64) are out of bounds
+		a, err := actual.AsInt()
+		if err != nil {
+			return false
+		}
+		b, err := expected.AsInt()
+		if err != nil {
+			return false
+		}
 
 		return satisfies(cmp.Compare(a, b))
 	}
@@ -296,6 +302,17 @@ func isOrdered(expected ipld.Node, actual ipld.Node, satisfies func(order int) b
 	}
 
 	return false
+}
+
+// deepEqual is datamodel.DeepEqual, except that data it cannot compare
+// (integers that don't fit in an int64 make it panic) is never equal.
+func deepEqual(x, y ipld.Node) (res bool) {
+	defer func() {
+		if r := recover(); r != nil {
+			res = false
+		}
+	}()
+	return datamodel.DeepEqual(x, y)
 }
 
 func gt(order int) bool  { return order == 1 }
